@@ -329,8 +329,8 @@ class Prog:
 
 
 def no_restart(ops, self_slot):
-    """known finding 'restart from own on_stop() during deregistration': ordinary scenarios avoid the pattern"""
-    return [o for o in ops if not (o[0] in ("start", "resume") and o[1] in (-1, self_slot))]
+    """(was: avoid the 'restart from own on_stop() during deregistration' defect; repaired, nothing is filtered any more)"""
+    return ops
 
 
 MIXED_W = dict(lifecycle=10, tell=8, publish=8, broadcast=4, pill=2, sub=8, unsub=3, fd=8, tmr=4, sgn=3, task=2,
@@ -501,5 +501,103 @@ def gen_restart_in_stop(seed, mode="loop"):
     sc.main += [("reg", 1), ("start", 1), ("tmr_reg", 1, 1000000, 0, 5, 0)]
     steps = [[], [("dereg", 1)], [], []]
     driven_finish(sc, steps, rng=r)
+    finalize_main(sc)
+    return sc
+
+
+def main_dispatch_finish(sc, steps, rng=None, quit_code=None, teardown=True):
+    """dispatch-only style: steps run from the main script *between* m_ctx_dispatch() calls (context looping, no
+    callback on the stack); the driver's kicker makes every dispatch return >= 1, i.e. end with an evaluation pass"""
+    code = quit_code if quit_code is not None else (rng.randrange(0, 200) if rng else 0)
+    sc.cb(DRV, "evt", "*", [])
+    sc.main.append(("ctx_dispatch", 1))
+    for ops in steps:
+        sc.main += ops
+        sc.main.append(("ctx_dispatch", 1))
+    sc.main += [("ctx_quit", code), ("ctx_dispatch_until", 50, 0)]
+    sc.meta["quit_code"] = code
+    sc.meta["style"] = "main"
+    if teardown:
+        order = sorted(sc.mods)
+        if rng:
+            rng.shuffle(order)
+        for s in order:
+            sc.main.append(("dereg", s))
+        sc.main.append(("ctx_deregister",))
+        sc.main.append(("RELEASE_ALL",))
+        order2 = sorted(sc.mods)
+        if rng:
+            rng.shuffle(order2)
+        for s in order2:
+            sc.main.append(("obs_drop", s))
+        for u in range(0, 16):
+            sc.main.append(("fd_close", u))
+        sc.main.append(("quiesce",))
+
+
+LIFE_W = dict(lifecycle=30, dereg=5, tell=4, publish=3, broadcast=2, pill=4, sub=4, unsub=1, fd=3, tmr=2, misc=2, errno=1, ctx=1,
+              batch=0, stash=0, become=0, retain=0, sleep=1, sgn=0, task=0, tb=0, thresh=0)
+
+
+def gen_lifecycle(seed, style=None):
+    """C01: many modules, every (state, call) pair from outside and from inside every callback kind, all combinations of
+    eval/start results, late registrations; names chosen at random so that table order varies"""
+    r = random.Random(seed * 7 + 3)
+    style = style or r.choice(["handler", "main", "main"])
+    sc = Sc("dispatch" if style == "main" else r.choice(["loop", "dispatch"]), "lifecycle seed=%d style=%s" % (seed, style))
+    driven_skeleton(sc)
+    nm = r.randrange(2, 7)
+    alphabet = "abcdefghijklmnopqrstuvwxyz"
+    for i in range(1, nm + 1):
+        name = "".join(r.choice(alphabet) for _ in range(r.randrange(2, 7))) + str(i)
+        hooks = r.choice([7, 7, 7, 6, 4, 5, 3, 1, 0, 2])
+        fl = r.choice([0, 0, 0, MOD_NAME_DUP, MOD_PERSIST]) if r.random() < 0.3 else 0
+        sc.mod(i, name, fl, hooks)
+    p = Prog(r, sc, LIFE_W, nm, dict(p_autofree=0.2, task_slots=[]))
+    late = []
+    for i in range(1, nm + 1):
+        if r.random() < 0.75:
+            sc.main.append(("reg", i))
+            x = r.random()
+            if x < 0.25:
+                sc.main.append(("start", i))
+            elif x < 0.32:
+                sc.main += [("start", i), ("pause", i)]
+            elif x < 0.38:
+                sc.main += [("start", i), ("stop", i)]
+        else:
+            late.append(i)
+    for _ in range(r.randrange(0, 5)):
+        sc.main += p.op("idle")
+    for i in range(1, nm + 1):
+        hooks = sc.mods[i][2]
+        if hooks & 1:
+            pf = r.choice([0.0, 0.3, 0.6, 1.0])        # probability that an evaluation says "no"
+            for n in range(8):
+                sc.cb(i, "eval", n, sum((p.op("cb", i) for _ in range(r.choice([0, 0, 0, 1]))), []), ret=0 if r.random() < pf else 1)
+            sc.cb(i, "eval", "*", [], ret=1 if r.random() < 0.8 else 0)
+        if hooks & 2:
+            for n in range(4):
+                sc.cb(i, "start", n, sum((p.op("cb", i) for _ in range(r.choice([0, 0, 1, 2]))), []), ret=0 if r.random() < 0.2 else 1)
+            sc.cb(i, "start", "*", [], ret=1)
+        if hooks & 4:
+            for n in range(4):
+                sc.cb(i, "stop", n, no_restart(sum((p.op("cb", i) for _ in range(r.choice([0, 0, 1, 2]))), []), i))
+            sc.cb(i, "stop", "*", [])
+        for n in range(r.randrange(0, 5)):
+            sc.cb(i, "evt", n, sum((p.op("cb", i) for _ in range(r.randrange(0, 3))), []))
+        sc.cb(i, "evt", "*", [])
+    steps = []
+    for k in range(r.randrange(4, 25)):
+        ops = []
+        for _ in range(r.randrange(0, 4)):
+            ops += p.op("step" if style == "handler" else "idle")
+        if late and r.random() < 0.3:
+            ops.append(("reg", late.pop()))
+        steps.append(ops)
+    if style == "main":
+        main_dispatch_finish(sc, steps, rng=r)
+    else:
+        driven_finish(sc, steps, rng=r)
     finalize_main(sc)
     return sc
